@@ -11,6 +11,7 @@ import ast
 
 from ..cfg import known_falsy
 from ..model import self_attr, unparse, walk_body_shallow
+from .util import *  # noqa: F401,F403
 from .util import value_origins, at, expand, const_value, fold, path_values, call_name, call_recv, calls_in, need, node_assign_value, node_writes_attr, norm, where
 
 TECHNIQUE = "symbolic comparator on the back-off and buffer kernels, guard-fact dominance of limit and policy arms"
@@ -163,7 +164,8 @@ def run(ctx):
                 for dn, e in og:
                     if norm(e) == CFG_LIM:
                         continue
-                    pos = isinstance(e, ast.Constant) and isinstance(e.value, int) and not isinstance(e.value, bool) and e.value > 0
+                    cv_ = const_value(prog, hce, e)  # a literal, or a module / class constant
+                    pos = isinstance(cv_, int) and not isinstance(cv_, bool) and cv_ > 0
                     zero_seen = known_falsy(fce[dn], L) and all(norm(e2) == CFG_LIM for _d2, e2 in (value_origins(
                         cc, [p_ for p_, _l in cc.pred[dn]][0], ast.Name(id=L, ctx=ast.Load()), params=hce.params) or [(0, ast.Constant(value=None))]))
                     if not (pos and zero_seen):
@@ -213,7 +215,7 @@ def run(ctx):
     okd = bool(orq) and any("self._fetch_offset == OFFSET_EARLIEST or self._fetch_offset == OFFSET_LATEST" == t and p
                             for t, p in fd[orq[0].id])
     oreq = [c for c in calls_in(dof, "OffsetRequest")]
-    okd = okd and bool(oreq) and len(oreq[0].args) >= 3 and norm(oreq[0].args[2]) == "self._fetch_offset"
+    okd = okd and bool(oreq) and len(oreq[0].args) >= 3 and norm(at(ctx, dof, cd.containing(oreq[0])[0].id, oreq[0].args[2])) == "self._fetch_offset"
     r.check(okd, "%s#symbolic-offset-resolved" % dof.qname,
             "earliest/latest are not resolved through an offset request carrying that constant", where(dof, dof.node))
     co = ctx.cfg(hor)
@@ -269,9 +271,11 @@ def buffer_kernel(ctx, r):
     grows = [n for n in arm if n.stmt is not None and node_writes_attr(n, "buffer_size")]
     unl = [n for n in grows if isinstance(n.stmt, ast.AugAssign) and isinstance(n.stmt.op, ast.Mult) and norm(
         n.stmt.value) == fvar and ("self.max_buffer_size is None", True) in ffr[n.id]]
-    capd = [n for n in grows if isinstance(n.stmt, ast.Assign) and norm(n.stmt.value) in (
-        "min(self.buffer_size * %s, self.max_buffer_size)" % fvar, "min(self.max_buffer_size, self.buffer_size * %s)" % fvar)
-        and ("self.buffer_size < self.max_buffer_size", True) in ffr[n.id]]
+    def _want(n):  # the two spellings of the capped growth, locals resolved as they are at n (like the value compared)
+        return [norm(at(ctx, hfr, n.id, ast.parse(t % fvar, mode="eval").body)) for t in (
+            "min(self.buffer_size * %s, self.max_buffer_size)", "min(self.max_buffer_size, self.buffer_size * %s)")]
+    capd = [n for n in grows if isinstance(n.stmt, ast.Assign) and norm(at(ctx, hfr, n.id, n.stmt.value)) in _want(n)
+            and ("self.buffer_size < self.max_buffer_size", True) in ffr[n.id]]
     r.check(len(unl) == 1 and len(capd) == 1 and len(grows) == 2, "%s#growth" % hfr.qname,
             "buffer growth is not `size *= factor` without a cap, `min(size*factor, max)` below the cap", where(hfr, exc[0].stmt),
             "buffer exceeds max_buffer_size / does not grow: the large message is never received")
@@ -290,6 +294,14 @@ def buffer_kernel(ctx, r):
 
 
 MUTANTS = [
+    {"id": "shutdown-overwrites-limit", "file": "consumer.py",
+     "old": "        # Create a deferred to track the shutdown\n",
+     "new": "        if not self.request_retry_max_attempts:\n            self.request_retry_max_attempts = 2\n        # Create a deferred to track the shutdown\n",
+     "expect": "C14.R6", "note": "finding F29"},
+    {"id": "commit-limit-ignored-at-shutdown", "file": "consumer.py",
+     "old": "        if not max_attempts and self._shuttingdown:\n            max_attempts = 2\n", "new": "        max_attempts = max_attempts * 2\n",
+     "expect": "C14.R3"},
+
     {"id": "reset-before-decode", "file": "consumer.py",
      "edits": [("consumer.py", "        # Check to see if we are still processing the last block we fetched...\n        if self._msg_block_d:",
                 "        self.retry_delay = self.retry_init_delay\n        self._fetch_attempt_count = 1\n        # Check to see if we are still processing the last block we fetched...\n        if self._msg_block_d:")],
